@@ -4,7 +4,7 @@
    migrating slot, on the owner or the target but not both; abs = the data a single server would hold.
    The theorems hold for EVERY per-key command semantics sem and slot function. *)
 From Coq Require Import List NArith.
-From Sam Require Import Model.Bytes Model.Resp Model.Cluster Model.Migrate Proofs.MigrateProofs.
+From Sam Require Import Model.Bytes Model.Resp Model.Cluster Model.Migrate Model.Gossip Proofs.MigrateProofs Proofs.GossipProofs.
 Import ListNotations.
 Open Scope N_scope.
 
@@ -41,3 +41,57 @@ Print Assumptions C04_program.
 Example C04_stable_inv : forall V slot (d : N -> db V) (o : N -> N),
   (forall n k v, d n k = Some v -> n = o (slot k)) -> MInv V slot {| ndb := d; own := o; mig := fun _ => None |}.
 Proof. intros V slot d o H. constructor; cbn; [intros n k v Hv; left; exact (H n k v Hv) | discriminate | discriminate]. Qed.
+
+(* ---- nodes with inconsistent views (Model/Gossip.v): the finalisation window of a migration ----
+   gstate = the truth (cstate) + per slot the old owner and the number of MOVED answers the new owner still gives
+   before it learns that the slot is its own; GInv: MInv of the truth, and a lagging slot is not migrating. *)
+
+(* whatever happens (migration steps, finalisations with any lag, learning), nothing is lost or duplicated *)
+Theorem C04_gossip_preserves_data : forall V slot l g, GInv V slot g ->
+  GInv V slot (do_gsteps V slot g l) /\ forall k, abs V slot (gb V (do_gsteps V slot g l)) k = abs V slot (gb V g) k.
+Proof. exact gsteps_ok. Qed.
+Print Assumptions C04_gossip_preserves_data.
+
+(* safety with unbounded fuel: whenever the redirect chain of a request ends - after any number of bounces, with
+   finalisation windows opening and closing between its hops - it ended with one execution, the client got the
+   single server's reply (the chain has no other way to end: a MOVED/ASK is never what the client gets), and the
+   data is the single server's *)
+Theorem C04_gossip_safe : forall V sem slot fuel g n s envs g' r nd h, GInv V slot g ->
+  Forall (fun l => gquiet (slot (sk s)) l = true) envs ->
+  gchain V sem slot fuel g n false s envs 0 = GDone V g' r nd h ->
+  GInv V slot g' /\ r = snd (exec_sub V sem (abs V slot (gb V g)) s) /\
+  (forall x, abs V slot (gb V g') x = fst (exec_sub V sem (abs V slot (gb V g)) s) x).
+Proof. exact gchain_safe0. Qed.
+Print Assumptions C04_gossip_safe.
+
+(* progress: if no new finalisation window of the request's own slot opens between its hops, the chain ends, within
+   2*lag+3 hops (each MOVED the lagging node still gives costs one bounce) *)
+Theorem C04_gossip_request : forall V sem slot g n s envs, GInv V slot g ->
+  Forall (fun l => calm (slot (sk s)) l = true) envs ->
+  exists g' r nd h, gchain V sem slot (2 * lag_count V g (slot (sk s)) + 4) g n false s envs 0 = GDone V g' r nd h /\
+    GInv V slot g' /\ r = snd (exec_sub V sem (abs V slot (gb V g)) s) /\
+  (forall x, abs V slot (gb V g') x = fst (exec_sub V sem (abs V slot (gb V g)) s) x) /\
+  (h <= 2 * lag_count V g (slot (sk s)) + 3)%nat.
+Proof. exact grequest_ok. Qed.
+Print Assumptions C04_gossip_request.
+
+(* the bound is exact: from the old owner, with c MOVED answers still to come, the request takes 2*c+2 hops and is
+   executed by the new owner *)
+Theorem C04_gossip_bounces : forall V sem slot c g so s hops, GInv V slot g -> lag V g (slot (sk s)) = Some (so, c) ->
+  exists g' r, gchain V sem slot (2 * c + 2) g so false s [] hops =
+               GDone V g' r (own V (gb V g) (slot (sk s))) (hops + 2 * c + 2).
+Proof. exact bounce_exact. Qed.
+Print Assumptions C04_gossip_bounces.
+
+(* a whole client program across any number of finalisation windows *)
+Theorem C04_gossip_program : forall V sem slot l g, GInv V slot g -> Forall (calm_req slot) l ->
+  exists infos, snd (grun_seq V sem slot g l) = map Some infos /\
+    map (fun i => fst (fst i)) infos = snd (ss_subs V sem (abs V slot (gb V g)) (map gq_sub l)) /\
+    GInv V slot (fst (grun_seq V sem slot g l)) /\
+    forall x, abs V slot (gb V (fst (grun_seq V sem slot g l))) x = fst (ss_subs V sem (abs V slot (gb V g)) (map gq_sub l)) x.
+Proof. exact grun_seq_ok. Qed.
+Print Assumptions C04_gossip_program.
+
+(* the invariant is met by every consistent state without lag, and a window can be opened from it *)
+Example C04_gossip_inv : forall V slot cs, MInv V slot cs -> GInv V slot {| gb := cs; lag := fun _ => None |}.
+Proof. intros V slot cs I. constructor; cbn; [exact I | discriminate]. Qed.
